@@ -8,13 +8,13 @@ META = dict(
     engines="B",
     files=FILES,
     technique="the real crc8404B is executed on exact-width bit-vector proxies (Engine B) and its output term is compared by z3 with a bit-serial CRC-16 (reflected polynomial 0x8408) reference: one-step lemma over all 2^16 x 2^8 cases, compositionality of the loop, and unrolled end-to-end equivalence",
-    level_text="Solver verdict over all 16-bit start values and all byte values for one update step (2^24 cases in one query), for the composition law crc(a||b, s) = crc(b, crc(a, s)) on symbolic strings, and end to end for every string of length 0..8, 15..17, 31..33, 64 (quick) / 0..40, 63..65, 128 (thorough) with symbolic start value; result always within 16 bits; default start 0xFFFF; no final XOR.",
+    level_text="Solver verdict over all 16-bit start values and all byte values for one update step (2^24 cases in one query), for the composition law crc(a||b, s) = crc(b, crc(a, s)) on symbolic strings, and end to end for every string of length 0..8, 15..17, 31..33, 64 (quick) / 0..40, 63..65 (thorough) with symbolic start value; result always within 16 bits; default start 0xFFFF; no final XOR.",
     level_note="Trusted: z3 bit-vector theory, the 60-line proxy class (each operator evaluated at a width that cannot overflow; validated at start-up against Python ints on random values), the 8-line bit-serial reference. Strings longer than the unrolling are covered by the step lemma + composition law as an induction argument, not by a separate query.",
     explanation="Bounded symbolic verification: bec2file.crc8404B is called with proxy arguments (bec2file.int shadowed by identity in the checking process); the proxies build the exact z3 bit-vector term of the result; queries are discharged by z3. A deliberately wrong reference (0x8409) must be refuted (sat).",
     functions=["bec2format.bec2file.crc8404B"],
     stubs=["bec2file.int/bytes/bytearray -> identity on proxies, int.from_bytes -> exact bit-vector concatenation", "module-level integer tables of bec2file -> z3 arrays with the same contents (table-driven rewrites stay symbolic)"],
     assumptions=[],
-    bounds=dict(quick="step lemma all (start, byte); composition for |a|,|b| <= 2; strings of length 0..8, 15..17, 31..33, 64", thorough="strings of length 0..40, 63..65, 128; composition for |a|,|b| <= 4"),
+    bounds=dict(quick="step lemma all (start, byte); composition for |a|,|b| <= 2; strings of length 0..8, 15..17, 31..33, 64", thorough="strings of length 0..40, 63..65 (128: solver unknown after 600 s, outside the claim); composition for |a|,|b| <= 4"),
     outside=["strings longer than the unrolling except through the induction argument", "start values outside 0..0xFFFF"],
 )
 
@@ -24,7 +24,7 @@ def jobs(tier, seed):
     J.append(dict(name="history:same-buffer-mutated-between-calls", kind="history", timeout=300))
     maxlen = 8 if tier == "quick" else 40
     # block-size boundaries (16/32/64-byte folds of an optimised routine) are part of the quick tier as well
-    for n in list(range(0, maxlen + 1)) + ([15, 16, 17, 31, 32, 33, 64] if tier == "quick" else [63, 64, 65, 128]):
+    for n in list(range(0, maxlen + 1)) + ([15, 16, 17, 31, 32, 33, 64] if tier == "quick" else [63, 64, 65]):
         J.append(dict(name="unrolled:len%d" % n, kind="unrolled", n=n, timeout=900 if n <= 64 else 3600, cost=n + 1))
     m = 2 if tier == "quick" else 4
     for a in range(0, m + 1):
